@@ -108,7 +108,7 @@ def main(tier, seed):
         functions=fns,
         assumptions=[
             __import__("pyvc.props.anysize", fromlist=["A_SUM"]).A_SUM,
-            "A-Phi: 0 < Phi < 1, Phi(x) + Phi(-x) = 1, Phi(0) = 1/2, Phi monotone (instances); phi_major enters as Phi (C17)",
+            "A-Phi: 0 < Phi < 1, Phi(x) + Phi(-x) = 1, Phi(0) = 1/2, Phi monotone (instances); phi_major enters as Phi (C17) [A-Phi is machine-checked against Mathlib in lemmas/Phi.lean for Phi := the standard Gaussian CDF (thorough tier of C17); that libm's erfc/2 is this Phi stays assumed]",
             "A-fp: reals; 'to floating-point accuracy' and the float statement 'exactly one half' are not decided (the real-valued identity p = 1/2 is)",
             "sigma >= 0, beta > 0; shape-bounded (coverage.shapes)",
         ],
